@@ -29,6 +29,32 @@ def main():
         v, _, _ = common.validate_traces("Trace_Tier", [bad, dict(ev, id=1)], work)
         assert v.get(0) == ["NOT_EVALUABLE"] and 1 not in v, ("a malformed event must be rejected and the events behind it still judged", v)
         print("rejected as expected: event without 'pre' -> NOT_EVALUABLE (counted as a violation), the next event is still judged")
+        # ---- audio family: a recorded getSamples call is accepted; one wrong sample, one missing sample are rejected
+        from harness import audiofam as A
+        A.mods()
+        aev = A.run_edit({"op": "getSamples", "args": {"t0": 4, "t1": 16}, "pre": [5, 9, 2, 7, 11]}, 8, 2, 0, work)
+        v, _, _ = common.validate_traces("Trace_Audio", [aev], work)
+        assert v == {}, ("a faithful audio event must be accepted", v)
+        for name, mut in (("one sample replaced", lambda e: e["ret"].__setitem__(0, 11)), ("one sample dropped", lambda e: e["ret"].pop())):
+            e = copy.deepcopy(aev); mut(e); e["n"] = len(e["ret"])
+            v, _, _ = common.validate_traces("Trace_Audio", [e], work)
+            assert "C16_get_returns_samples_between_nearest_indices" in v.get(0, []), (name, v)
+            print("rejected as expected (audio):", name, "-> C16_get_returns_samples_between_nearest_indices")
+        # ---- file family: a recorded save is accepted; one changed character of the written text is rejected
+        from harness import filefam as F
+        textgrid = T.praatio()[0]
+        tg = textgrid.Textgrid(0.0, 1.5)
+        tg.addTier(textgrid.IntervalTier("words", [(0.1, 0.5, 'say "hi"'), (0.5, 1.0, "b")], 0.0, 1.5))
+        fev, _ = F.save_event(tg, 0, True, None, None, use_t=True, workdir=work, features={})
+        v, _, _ = common.validate_traces("Trace_File", [fev], work)
+        assert not [c for c in v.get(0, []) if c.startswith("C02_")], ("a faithful save event must be accepted", v)
+        e = copy.deepcopy(fev)
+        txt = e["texts"]["short"]
+        k = next(i for i, ch in enumerate(txt) if ch[0] == "Q")           # drop one quote character of the short file
+        e["texts"]["short"] = txt[:k] + txt[k + 1:]
+        v, _, _ = common.validate_traces("Trace_File", [e], work)
+        assert [c for c in v.get(0, []) if c.startswith("C02_short")], ("a file with a quote removed must be rejected", v)
+        print("rejected as expected (file): one quote character removed from the short file ->", [c for c in v[0] if c.startswith("C02_short")][:2])
         print("selftest ok")
         return 0
     finally:
